@@ -8,7 +8,8 @@
 From Coq Require Import List Arith ZArith Permutation.
 From GV.lib Require Import Semiring BigSum.
 From GV.model Require Import Cfg Transform.
-From GV.proofs Require Import CkyProofs TrimProofs.
+From GV.gen Require Import Gen_Cfg.
+From GV.proofs Require Import CkyProofs TrimProofs GenCfgBridge.
 Import ListNotations.
 
 (* cotrim = trim(bottomup_only): dropping every rule that mentions a non-generating symbol
@@ -41,3 +42,15 @@ Example C06_cotrim_nonvacuous :
     = [((mkq 1%Z 3%positive : QcSR), 0, [T 1])].
 Proof. vm_compute. reflexivity. Qed.
 Print Assumptions C06_cotrim_nonvacuous.
+
+(* The transformations the theorems above are about are the ones the code performs: the definitions
+   regenerated from cfg.py on every run (CFG.rename, CFG._trim with the set of generating symbols,
+   CFG.separate_start) coincide with the models. *)
+Theorem C06_code_is_model : forall (S : SR) (G : grammar S) (f : nat -> nat) (s' s : nat),
+  gen_rename S f G = rename_g f G /\ gen_trim S (gen_sym (generating G)) G = cotrim G /\
+  gen_separate_start S s' s G = separate_start s' s G.
+Proof.
+  intros S G f s' s.
+  exact (conj (gen_rename_model S f G) (conj (gen_cotrim_model S G) (gen_separate_start_model S s' s G))).
+Qed.
+Print Assumptions C06_code_is_model.
